@@ -24,6 +24,7 @@ import (
 	"github.com/libp2p/go-libp2p/core/peer"
 	"github.com/libp2p/go-libp2p/core/protocol"
 	ma "github.com/multiformats/go-multiaddr"
+	mh "github.com/multiformats/go-multihash"
 )
 
 const simPool = 1 << 13
@@ -53,7 +54,7 @@ type lkSc struct {
 	K        int      `json:"k"`
 	Alpha    int      `json:"alpha"`
 	Beta     int      `json:"beta"`
-	KeyKind  int      `json:"key_kind,omitempty"` // 0: multihash from the key pool; 2: value key "/v/k<Key>"
+	KeyKind  int      `json:"key_kind,omitempty"` // 0: multihash from the key pool; 2: value key "/v/k<Key>"; 3: public-key key; 4: identity multihash; 5: SHA-1 multihash
 	Key      int      `json:"key"`                // key pool index
 	KeyPeer  int      `json:"key_peer,omitempty"` // >0: the key is the id of Peers[KeyPeer-1] (FindPeer-style target)
 	Self     int      `json:"self"`               // peer pool index of the local node
@@ -103,6 +104,18 @@ func (s *lkSc) keyString() string {
 	}
 	if s.KeyKind == 2 {
 		return fmt.Sprintf("/v/k%d", s.Key)
+	}
+	if s.KeyKind == 4 || s.KeyKind == 5 {
+		// multihashes of other functions than SHA-256: the identity function (the "hash" is the data, as in inlined CIDs) and SHA-1
+		code := uint64(mh.IDENTITY)
+		if s.KeyKind == 5 {
+			code = mh.SHA1
+		}
+		h, err := mh.Sum([]byte(fmt.Sprintf("inline-data-%d", s.Key)), code, -1)
+		if err != nil {
+			panic(err)
+		}
+		return string(h)
 	}
 	return kpoolS().IDs[s.Key%simPool]
 }
